@@ -14,7 +14,7 @@ Import ListNotations.
 Local Open Scope string_scope.
 Local Open Scope list_scope.
 
-Inductive binop := OAdd | OSub | OMul | ODiv.
+Inductive binop := OAdd | OSub | OMul | ODiv | OFloorDiv | OMod.   (* Sum, -, Multiple, Division, FloorDiv (//), Mod (%) Prior *)
 (* ModifiedPrior forms with an exact value semantics: NegativePrior (-p), AbsolutePrior (abs(p)).
    (OSub is kept for clients that want it; the composition API never builds it: a - b is
    SumPrior(a, NegativePrior(b)), i.e. NBin OAdd _ _ a (NUn UNeg _ b), see ArithmeticMixin.__sub__.) *)
